@@ -378,7 +378,7 @@ func minInt(a, b int) int {
 func c31() {
 	r := vk.Start("C31", "exploration")
 	c31health = startHealth()
-	n := r.Pick(1200, 40000)
+	n := r.Pick(2000, 40000)
 	par := 24
 	work := make(chan int, n)
 	for i := 0; i < n; i++ {
